@@ -17,15 +17,20 @@ Proof. vm_compute. reflexivity. Qed.
 Section Proofs.
   Variable L : layout.
   Variable content : N -> N -> N.
+  Variable enc : bool.
+  Variable ks : N -> N.
 
   Notation slice := (slice content).
-  Notation fill := (fill L).
-  Notation ew := (ew L content).
-  Notation step := (step L content).
-  Notation run := (run L content).
+  Notation crypt := (crypt enc ks).
+  Notation fill := (fill L enc ks).
+  Notation ew := (ew L content enc ks).
+  Notation step := (step L content enc ks).
+  Notation run := (run L content enc ks).
   Notation wire := (wire content).
   Notation pend_payload := (pend_payload content).
   Notation enc_msg := (enc_msg content).
+  Notation enc_refill := (enc_refill content enc ks).
+  Notation up_chunk := (up_chunk content enc ks).
 
   (* ---------- slices ---------- *)
   Lemma slice_fuel_app : forall a b i off,
@@ -53,6 +58,35 @@ Section Proofs.
     induction f; intro off; cbn [slice_fuel length]; [reflexivity | now rewrite IHf].
   Qed.
 
+  Lemma len_slice : forall i off n, len (slice i off n) = n.
+  Proof. intros. unfold len. rewrite slice_length. lia. Qed.
+
+  Lemma len_app : forall a b : list N, len (a ++ b) = len a + len b.
+  Proof. intros. unfold len. rewrite app_length. lia. Qed.
+
+  (* ---------- the stream cipher ---------- *)
+  Lemma xor_from_app : forall a b p, xor_from ks p (a ++ b) = xor_from ks p a ++ xor_from ks (p + len a) b.
+  Proof.
+    induction a as [|x a IH]; intros b p; cbn [app xor_from].
+    - unfold len. cbn [length]. now rewrite N.add_0_r.
+    - rewrite IH. f_equal. f_equal. f_equal. unfold len. cbn [length]. lia.
+  Qed.
+
+  Lemma xor_from_length : forall a p, length (xor_from ks p a) = length a.
+  Proof. induction a; intro p; cbn [xor_from length]; [reflexivity | now rewrite IHa]. Qed.
+
+  Lemma crypt_app : forall a b p, crypt p (a ++ b) = crypt p a ++ crypt (p + len a) b.
+  Proof. intros. unfold Model.crypt. destruct enc; [apply xor_from_app | reflexivity]. Qed.
+
+  Lemma crypt_nil : forall p, crypt p [] = [].
+  Proof. intros. unfold Model.crypt. destruct enc; reflexivity. Qed.
+
+  Lemma len_crypt : forall a p, len (crypt p a) = len a.
+  Proof. intros. unfold Model.crypt, len. destruct enc; [now rewrite xor_from_length | reflexivity]. Qed.
+
+  Lemma crypt_ne : forall a p, a <> [] -> crypt p a <> [].
+  Proof. intros a p H E. apply H. destruct a; [reflexivity|]. unfold Model.crypt in E. destruct enc; discriminate E. Qed.
+
   (* ---------- stream / wire bookkeeping ---------- *)
   Lemma stream_cons : forall (c : list N) (o : list (list N)), concat (rev (c :: o)) = concat (rev o) ++ c.
   Proof. intros. cbn [rev]. rewrite concat_app. cbn [concat]. now rewrite app_nil_r. Qed.
@@ -62,12 +96,24 @@ Section Proofs.
     intros. unfold Model.wire. cbn [rev]. rewrite map_app, concat_app. cbn [map concat]. now rewrite app_nil_r.
   Qed.
 
+  (* The invariant. P1 is the plaintext that has already passed through the cipher: it is followed
+     in wire(msgs) by exactly the payload still to be read from the chunk; its image under the
+     keystream, from position 0 on, is what was sent plus what sits in the two buffers; the
+     encryptor stands at position |P1|. *)
   Definition Inv (s : st) : Prop :=
     (ws s <> Msg -> obuf s = []) /\
-    stream s ++ obuf s ++ pend_payload s = wire (msgs s).
+    (ws s <> WPiece -> ebuf s = []) /\
+    (enc = false -> ebuf s = []) /\
+    len (ebuf s) <= p_len (cur s) + (match ws s with WPiece => 0 | _ => len (ebuf s) end) /\
+    exists P1, wire (msgs s) = P1 ++ pend_payload s /\
+               stream s ++ obuf s ++ ebuf s = crypt 0 P1 /\
+               kpos s = len P1.
 
   Lemma inv_init : Inv init.
-  Proof. split; [intros _|]; reflexivity. Qed.
+  Proof.
+    unfold Inv, init; cbn. repeat split; try (intros; reflexivity); try lia.
+    exists []. repeat split. now rewrite crypt_nil.
+  Qed.
 
   Definition post_fill (s1 : st) : st :=
     match obuf s1 with [] => s1 | _ :: _ => set_ws s1 Msg end.
@@ -82,46 +128,215 @@ Section Proofs.
   Lemma enc_hdr_ne : forall p, enc_piece_hdr p <> [].
   Proof. intros p. unfold enc_piece_hdr, be32. cbn [app]. discriminate. Qed.
 
-  Ltac c1 := first [ let Hx := fresh "Hx" in (intro Hx; exfalso; apply Hx; reflexivity) | intros _; first [reflexivity | assumption] ].
-  Ltac sel := cbn [set_ws choked queue obuf msgs out last_piece cur closed ws send_choked].
+  Ltac sel := cbn [set_ws choked queue obuf msgs out last_piece cur closed ws send_choked ebuf eb_end kpos].
+
+  (* something (B) was buffered by fill: the writer goes to MSG with crypt(B) in the buffer *)
+  Lemma inv_after_fill : forall s (B : list N) ms (lp : bool) c q ch sc cl,
+    Inv s -> ws s = Idle -> B <> [] ->
+    wire ms = wire (msgs s) ++ B ++ (if lp then slice (p_index c) (p_off c) (p_len c) else []) ->
+    Inv (mkSt ch sc q Msg (crypt (kpos s) B) lp c cl (out s) ms (ebuf s) (eb_end s) (kpos s + len B)).
+  Proof.
+    intros s B ms lp c q ch sc cl (Ho & He & Hp & Hl & P1 & Hw & Hs & Hk) Hws HB Hms.
+    assert (Hob : obuf s = []) by (apply Ho; rewrite Hws; discriminate).
+    assert (Heb : ebuf s = []) by (apply He; rewrite Hws; discriminate).
+    unfold Model.pend_payload in Hw. rewrite Hws in Hw. rewrite app_nil_r in Hw.
+    unfold Inv; sel. repeat split.
+    - intro H. exfalso. apply H. reflexivity.
+    - intros _. exact Heb.
+    - intros _. exact Heb.
+    - rewrite Heb. unfold len. cbn [length]. lia.
+    - exists (P1 ++ B). unfold Model.pend_payload, stream in *; sel. repeat split.
+      + rewrite Hms, Hw, <- app_assoc. reflexivity.
+      + rewrite crypt_app, <- Hs, Hob, Heb, Hk, !app_nil_r. cbn [N.add]. reflexivity.
+      + rewrite len_app, Hk. reflexivity.
+  Qed.
+
+  (* nothing was buffered (or the connection was closed): the writer stays idle *)
+  Lemma inv_idle_same : forall s lp c q ch sc cl k',
+    Inv s -> ws s = Idle -> k' = kpos s ->
+    Inv (mkSt ch sc q Idle [] lp c cl (out s) (msgs s) (ebuf s) (eb_end s) k').
+  Proof.
+    intros s lp c q ch sc cl k' (Ho & He & Hp & Hl & P1 & Hw & Hs & Hk) Hws ->.
+    assert (Hob : obuf s = []) by (apply Ho; rewrite Hws; discriminate).
+    assert (Heb : ebuf s = []) by (apply He; rewrite Hws; discriminate).
+    unfold Inv; sel. repeat split; try (intros; first [reflexivity | assumption]).
+    - rewrite Heb. unfold len. cbn [length]. lia.
+    - exists P1. unfold Model.pend_payload, stream in *; sel. rewrite Hws in Hw. rewrite Hob in Hs.
+      repeat split; assumption.
+  Qed.
 
   Lemma fill_inv : forall s, ws s = Idle -> Inv s -> Inv (post_fill (fill s)).
   Proof.
-    intros s Hws [Hi Hw]. assert (Hi' : obuf s = []) by (apply Hi; rewrite Hws; discriminate). clear Hi. rename Hi' into Hi.
-    unfold Inv, stream, Model.pend_payload in *. rewrite Hws, Hi in Hw. cbn [app] in Hw. rewrite app_nil_r in Hw.
+    intros s Hws HI.
+    assert (Hi : obuf s = []) by (apply (proj1 HI); rewrite Hws; discriminate).
     unfold Model.fill.
     destruct (send_choked s) eqn:Hsc, (choked s) eqn:Hc; sel.
     - (* CHOKE written, queue cleared *)
-      rewrite post_fill_ne by (sel; rewrite <- (app_nil_r (enc_choke true)); apply enc_choke_ne). sel.
-      split; [c1|]. rewrite wire_cons, <- Hw. cbn [Model.enc_msg]. rewrite app_nil_r. reflexivity.
+      rewrite post_fill_ne by (sel; apply crypt_ne; rewrite <- (app_nil_r (enc_choke true)); apply enc_choke_ne). unfold set_ws; sel.
+      apply inv_after_fill; try assumption.
+      + rewrite <- (app_nil_r (enc_choke true)). apply enc_choke_ne.
+      + rewrite wire_cons. cbn [Model.enc_msg]. now rewrite app_nil_r.
     - destruct (queue s) as [|p q'] eqn:Hq; sel.
-      + rewrite post_fill_ne by (sel; rewrite <- (app_nil_r (enc_choke false)); apply enc_choke_ne). sel.
-        split; [c1|]. rewrite wire_cons, <- Hw. cbn [Model.enc_msg]. rewrite app_nil_r. reflexivity.
+      + rewrite post_fill_ne by (sel; apply crypt_ne; rewrite <- (app_nil_r (enc_choke false)); apply enc_choke_ne). unfold set_ws; sel.
+        apply inv_after_fill; try assumption.
+        * rewrite <- (app_nil_r (enc_choke false)). apply enc_choke_ne.
+        * rewrite wire_cons. cbn [Model.enc_msg]. now rewrite app_nil_r.
       + destruct (is_valid_piece L p && l_completed L (p_index p)); sel.
-        * rewrite post_fill_ne by (sel; apply enc_choke_ne). sel.
-          split; [c1|]. rewrite !wire_cons, <- Hw. cbn [Model.enc_msg].
-          rewrite <- !app_assoc. reflexivity.
-        * rewrite post_fill_e by reflexivity. sel.
-          split; [c1|]. cbn [app]. rewrite app_nil_r. exact Hw.
+        * rewrite post_fill_ne by (sel; apply crypt_ne; apply enc_choke_ne). unfold set_ws; sel.
+          apply inv_after_fill; try assumption.
+          -- apply enc_choke_ne.
+          -- rewrite !wire_cons. cbn [Model.enc_msg]. now rewrite <- !app_assoc.
+        * rewrite post_fill_e by (sel; apply crypt_nil). rewrite crypt_nil.
+          apply inv_idle_same; try assumption. unfold len. cbn [length]. lia.
     - (* nothing to announce, choked: nothing written *)
-      rewrite post_fill_e by exact Hi.
-      rewrite Hi, Hws. split; [c1|]. cbn [app]. rewrite app_nil_r. exact Hw.
+      rewrite Hi. rewrite post_fill_e by (sel; apply crypt_nil). rewrite crypt_nil.
+      rewrite Hws. apply inv_idle_same; try assumption. unfold len. cbn [length]. lia.
     - destruct (queue s) as [|p q'] eqn:Hq; sel.
-      + rewrite post_fill_e by exact Hi. rewrite Hi, Hws. split; [c1|]. cbn [app]. rewrite app_nil_r. exact Hw.
+      + rewrite Hi. rewrite post_fill_e by (sel; apply crypt_nil). rewrite crypt_nil.
+        rewrite Hws. apply inv_idle_same; try assumption. unfold len. cbn [length]. lia.
       + destruct (is_valid_piece L p && l_completed L (p_index p)); sel.
-        * rewrite post_fill_ne by (sel; rewrite Hi; cbn [app]; apply enc_hdr_ne). sel.
-          split; [c1|]. rewrite Hi. cbn [app]. rewrite wire_cons, <- Hw. cbn [Model.enc_msg].
-          reflexivity.
-        * rewrite post_fill_e by reflexivity. sel.
-          split; [c1|]. cbn [app]. rewrite app_nil_r. exact Hw.
+        * rewrite Hi. cbn [app].
+          rewrite post_fill_ne by (sel; apply crypt_ne; apply enc_hdr_ne). unfold set_ws; sel.
+          apply inv_after_fill; try assumption.
+          -- apply enc_hdr_ne.
+          -- rewrite wire_cons. cbn [Model.enc_msg]. reflexivity.
+        * rewrite post_fill_e by (sel; apply crypt_nil). rewrite crypt_nil.
+          apply inv_idle_same; try assumption. unfold len. cbn [length]. lia.
   Qed.
+
   Lemma fill_closed_obuf : forall s, closed s = false -> closed (fill s) = true -> obuf (fill s) = [].
   Proof.
     intros s Hc. unfold Model.fill.
     destruct (send_choked s), (choked s); sel;
       try (destruct (queue s) as [|p q']; sel);
       try (destruct (is_valid_piece L p && l_completed L (p_index p)); sel);
-      intro H; try reflexivity; rewrite Hc in H; discriminate H.
+      intro H; try apply crypt_nil; rewrite Hc in H; discriminate H.
+  Qed.
+  Ltac inv_destruct H := destruct H as (Ho & He & Hp & Hl & P1 & Hw & Hs & Hk).
+
+  Lemma len_firstn_skipn : forall (l : list N) n, len (firstn n l) + len (skipn n l) = len l.
+  Proof. intros. rewrite <- len_app, firstn_skipn. reflexivity. Qed.
+
+  Lemma write_buf_inv : forall s n, Inv s -> ws s = Msg -> Inv (write_buf s n).
+  Proof.
+    intros s n HI Hws. inv_destruct HI.
+    assert (Heb : ebuf s = []) by (apply He; rewrite Hws; discriminate).
+    unfold Inv, write_buf; sel. rewrite Hws in *. repeat split.
+    - intro H. exfalso. apply H. reflexivity.
+    - intros _. exact Heb.
+    - intros _. exact Heb.
+    - lia.
+    - exists P1. unfold Model.pend_payload, stream in *; sel. rewrite Hws in *. repeat split; try assumption.
+      rewrite stream_cons, <- Hs. rewrite <- (firstn_skipn (N.to_nat n) (obuf s)) at 3.
+      rewrite <- !app_assoc. reflexivity.
+  Qed.
+
+  Lemma msg_to_next : forall s w, Inv s -> ws s = Msg -> obuf s = [] ->
+    w = (if last_piece s then WPiece else Idle) -> Inv (set_ws s w).
+  Proof.
+    intros s w HI Hws Hob ->. inv_destruct HI.
+    assert (Heb : ebuf s = []) by (apply He; rewrite Hws; discriminate).
+    unfold Inv, set_ws; sel. unfold Model.pend_payload, stream in *; sel. rewrite Hws in *.
+    rewrite Heb in *. unfold len in *. cbn [length N.of_nat] in *.
+    destruct (last_piece s); repeat split; try (intros; first [assumption|reflexivity]); try (intro H; discriminate H); try lia.
+    - exists P1. rewrite N.add_0_r, N.sub_0_r. repeat split; assumption.
+    - exists P1. repeat split; assumption.
+  Qed.
+
+  Lemma write_payload_inv : forall s n, Inv s -> ws s = WPiece -> enc = false -> n <= p_len (cur s) ->
+    Inv (write_payload content s n).
+  Proof.
+    intros s n HI Hws Henc Hn. inv_destruct HI.
+    assert (Hob : obuf s = []) by (apply Ho; rewrite Hws; discriminate).
+    assert (Heb : ebuf s = []) by (apply Hp; exact Henc).
+    assert (Hl0 : len (@nil N) = 0) by reflexivity.
+    unfold Inv, write_payload; sel. unfold Model.pend_payload, stream in *; sel. rewrite Hws in *.
+    rewrite Heb in *. rewrite Hl0 in *. rewrite N.add_0_r, N.sub_0_r in Hw.
+    repeat split; try (intros; first [assumption | reflexivity]); try lia.
+    exists (P1 ++ slice (p_index (cur s)) (p_off (cur s)) n). cbn [p_index p_off p_len]. repeat split.
+    - rewrite Hw, (slice_split _ _ n _ Hn), <- app_assoc, N.add_0_r, N.sub_0_r. reflexivity.
+    - rewrite stream_cons, Hob, crypt_app, <- Hs, Hob, !app_nil_r. cbn [app].
+      unfold Model.crypt. rewrite Henc. reflexivity.
+    - rewrite len_app, len_slice, Hk. reflexivity.
+  Qed.
+
+  Lemma enc_refill_ws : forall s, ws (enc_refill s) = ws s.
+  Proof. intro s. unfold Model.enc_refill. destruct (p_len (cur s) <=? len (ebuf s)); reflexivity. Qed.
+
+  Lemma enc_refill_inv : forall s, Inv s -> ws s = WPiece -> enc = true -> Inv (enc_refill s).
+  Proof.
+    intros s HI Hws Henc. unfold Model.enc_refill.
+    destruct (p_len (cur s) <=? len (ebuf s)) eqn:Hle; [exact HI|]. apply N.leb_gt in Hle.
+    inv_destruct HI.
+    assert (Hob : obuf s = []) by (apply Ho; rewrite Hws; discriminate).
+    set (r := len (ebuf s)) in *.
+    set (n := if r =? 0 then N.min (p_len (cur s)) eb_size else N.min (p_len (cur s) - r) (eb_size - (if r =? 0 then 0 else eb_end s))).
+    assert (Hn : n <= p_len (cur s) - r) by (subst n; destruct (r =? 0) eqn:E; [apply N.eqb_eq in E|]; lia).
+    unfold Inv; sel. unfold Model.pend_payload, stream in *; sel. rewrite Hws in *. fold r in Hw.
+    repeat split.
+    - intros _. exact Hob.
+    - intro H. exfalso. apply H. reflexivity.
+    - intro H. congruence.
+    - rewrite len_app, len_crypt, len_slice. fold r. lia.
+    - exists (P1 ++ slice (p_index (cur s)) (p_off (cur s) + r) n). repeat split.
+      + rewrite Hw, (slice_split _ _ n _ Hn), <- app_assoc. rewrite len_app, len_crypt, len_slice. fold r.
+        replace (p_off (cur s) + (r + n)) with (p_off (cur s) + r + n) by lia.
+        replace (p_len (cur s) - (r + n)) with (p_len (cur s) - r - n) by lia. reflexivity.
+      + rewrite crypt_app, <- Hs, <- Hk, Hob. cbn [app]. rewrite <- !app_assoc. reflexivity.
+      + rewrite len_app, len_slice, Hk. reflexivity.
+  Qed.
+
+  Lemma write_ebuf_inv : forall s n, Inv s -> ws s = WPiece -> n <= len (ebuf s) -> n <= p_len (cur s) ->
+    Inv (write_ebuf s n).
+  Proof.
+    intros s n HI Hws Hne Hnp. inv_destruct HI.
+    assert (Hob : obuf s = []) by (apply Ho; rewrite Hws; discriminate).
+    pose proof (len_firstn_skipn (ebuf s) (N.to_nat n)) as Hfs.
+    assert (Hf : len (firstn (N.to_nat n) (ebuf s)) = n).
+    { unfold len in *. rewrite firstn_length. lia. }
+    unfold Inv, write_ebuf; sel. unfold Model.pend_payload, stream in *; sel. rewrite Hws in *.
+    cbn [p_index p_off p_len]. repeat split.
+    - intros _. exact Hob.
+    - intro H. exfalso. apply H. reflexivity.
+    - intro H. rewrite (Hp H). destruct (N.to_nat n); reflexivity.
+    - lia.
+    - exists P1. repeat split; try assumption.
+      + rewrite Hw. f_equal; f_equal; lia.
+      + rewrite stream_cons, <- Hs, Hob. cbn [app].
+        rewrite <- (firstn_skipn (N.to_nat n) (ebuf s)) at 3. rewrite <- !app_assoc. reflexivity.
+  Qed.
+
+  Lemma wpiece_to_idle : forall s, Inv s -> ws s = WPiece -> p_len (cur s) = 0 -> Inv (set_ws s Idle).
+  Proof.
+    intros s HI Hws Hz. inv_destruct HI.
+    assert (Hob : obuf s = []) by (apply Ho; rewrite Hws; discriminate).
+    rewrite Hws in Hl.
+    assert (Heb : ebuf s = []) by (destruct (ebuf s); [reflexivity | unfold len in Hl; cbn [length] in Hl; lia]).
+    unfold Inv, set_ws; sel. unfold Model.pend_payload, stream in *; sel. rewrite Hws in *.
+    repeat split; try (intros; assumption). { rewrite Heb. unfold len. cbn [length]. lia. }
+    exists P1. rewrite Hz, Heb in Hw. unfold len in Hw. cbn [length N.of_nat] in Hw. rewrite slice_zero in Hw.
+    repeat split; assumption.
+  Qed.
+
+  Lemma if_true_eq : forall (A : Type) (b : bool) (x y : A), b = true -> (if b then x else y) = x.
+  Proof. intros A b x y H. now rewrite H. Qed.
+  Lemma if_false_eq : forall (A : Type) (b : bool) (x y : A), b = false -> (if b then x else y) = y.
+  Proof. intros A b x y H. now rewrite H. Qed.
+
+  Lemma up_chunk_inv : forall s k, Inv s -> ws s = WPiece ->
+    Inv (fst (up_chunk s k)) /\ ws (fst (up_chunk s k)) = WPiece /\ closed (fst (up_chunk s k)) = closed s.
+  Proof.
+    intros s k HI Hws. unfold Model.up_chunk. destruct (Bool.bool_dec enc true) as [Henc|Henc].
+    - rewrite (if_true_eq _ enc _ _ Henc).
+      pose proof (enc_refill_inv s HI Hws Henc) as HI0. pose proof (enc_refill_ws s) as Hw0.
+      assert (Hc0 : closed (enc_refill s) = closed s).
+      { unfold Model.enc_refill. destruct (p_len (cur s) <=? len (ebuf s)); reflexivity. }
+      destruct (N.min k (N.min (p_len (cur (enc_refill s))) (len (ebuf (enc_refill s)))) =? 0); cbn [fst].
+      + rewrite Hw0. auto.
+      + split; [|split]; [apply write_ebuf_inv; try assumption; try lia; congruence | unfold write_ebuf; sel; congruence | unfold write_ebuf; sel; exact Hc0].
+    - apply Bool.not_true_is_false in Henc. rewrite (if_false_eq _ enc _ _ Henc).
+      destruct (N.min k (p_len (cur s)) =? 0); cbn [fst]; [auto|].
+      split; [|split]; [apply write_payload_inv; try assumption; lia | unfold write_payload; sel; exact Hws | reflexivity].
   Qed.
 
   Lemma ew_inv : forall f k s, closed s = false -> Inv s -> Inv (ew f k s).
@@ -136,69 +351,28 @@ Section Proofs.
         * rewrite post_fill_e in HF by exact Hob. exact HF.
         * rewrite post_fill_ne in HF by (rewrite Hob; discriminate). apply IH; [exact Hcf|exact HF].
     - (* MSG *)
-      destruct HI as [Hi Hw].
-      destruct (N.min k (N.of_nat (length (obuf s))) =? 0) eqn:Hn; [split; assumption|].
+      destruct (N.min k (N.of_nat (length (obuf s))) =? 0) eqn:Hn; [exact HI|].
       set (n := N.min k (N.of_nat (length (obuf s)))) in *.
-      assert (HI1 : Inv (write_buf s n)).
-      { split; [unfold write_buf; sel; rewrite Hws; c1|].
-        unfold Inv, stream, Model.pend_payload, write_buf in *; sel.
-        rewrite stream_cons, Hws. rewrite Hws in Hw. rewrite <- Hw.
-        rewrite <- (firstn_skipn (N.to_nat n) (obuf s)) at 3. rewrite <- !app_assoc. reflexivity. }
+      pose proof (write_buf_inv s n HI Hws) as HI1.
       destruct (obuf (write_buf s n)) eqn:Hob; [|exact HI1].
-      destruct HI1 as [Hi1 Hw1].
-      unfold Inv, stream, Model.pend_payload in *.
       assert (Hws1 : ws (write_buf s n) = Msg) by (unfold write_buf; sel; exact Hws).
-      rewrite Hws1, Hob in Hw1.
       destruct (last_piece (write_buf s n)) eqn:Hlp.
       + apply IH; [unfold write_buf; sel; exact Hcl|].
-        split; sel; [intros _; exact Hob|]. rewrite Hob. exact Hw1.
+        apply msg_to_next; try assumption. rewrite Hlp. reflexivity.
       + apply IH; [unfold write_buf; sel; exact Hcl|].
-        split; sel; [intros _; exact Hob|]. rewrite Hob. exact Hw1.
+        apply msg_to_next; try assumption. rewrite Hlp. reflexivity.
     - (* WRITE_PIECE *)
-      destruct HI as [Hi Hw].
-      assert (Hob : obuf s = []) by (apply Hi; rewrite Hws; discriminate).
-      destruct (N.min k (p_len (cur s)) =? 0) eqn:Hn; [split; assumption|].
-      set (n := N.min k (p_len (cur s))) in *.
-      assert (Hle : n <= p_len (cur s)) by (subst n; lia).
-      assert (HI1 : Inv (write_payload content s n)).
-      { split; [unfold write_payload; sel; intros _; exact Hob|].
-        unfold Inv, stream, Model.pend_payload, write_payload in *; sel.
-        rewrite stream_cons, Hws, Hob. rewrite Hws, Hob in Hw. rewrite <- Hw. cbn [app].
-        rewrite (slice_split (p_index (cur s)) (p_off (cur s)) n (p_len (cur s)) Hle).
-        cbn [p_index p_off p_len]. rewrite <- !app_assoc. reflexivity. }
-      destruct (p_len (cur (write_payload content s n)) =? 0) eqn:Hz; [|exact HI1].
-      apply IH; [unfold write_payload; sel; exact Hcl|].
-      destruct HI1 as [Hi1 Hw1].
-      assert (Hws1 : ws (write_payload content s n) = WPiece) by (unfold write_payload; sel; exact Hws).
-      split; sel; [intros _; apply Hi1; rewrite Hws1; discriminate|].
-      unfold Inv, stream, Model.pend_payload in *. rewrite Hws1 in Hw1. sel.
-      apply N.eqb_eq in Hz. rewrite Hz in Hw1. rewrite slice_zero in Hw1. exact Hw1.
+      destruct (up_chunk_inv s k HI Hws) as (HI1 & Hws1 & Hc1).
+      destruct (up_chunk s k) as [s1 n]. cbn [fst] in *.
+      destruct (n =? 0); [exact HI1|].
+      destruct (p_len (cur s1) =? 0) eqn:Hz.
+      + apply IH; [sel; congruence|]. apply wpiece_to_idle; try assumption. apply N.eqb_eq. exact Hz.
+      + apply IH; [congruence | exact HI1].
   Qed.
   Definition run_from (s : st) (ops : list op) : st := fold_left step ops s.
 
   Lemma run_from_app : forall a b s, run_from s (a ++ b) = run_from (run_from s a) b.
   Proof. intros. unfold run_from. apply fold_left_app. Qed.
-
-  Lemma closed_ew : forall f k s, closed s = false -> closed (ew f k s) = true ->
-    ws (ew f k s) = Idle /\ obuf (ew f k s) = [].
-  Proof.
-    induction f as [|f IH]; intros k s Hc; cbn [Model.ew]; [intro H; congruence|].
-    destruct (ws s) eqn:Hws.
-    - destruct (closed (fill s)) eqn:Hcf.
-      + intros _. split; [|apply fill_closed_obuf; assumption].
-        revert Hcf. unfold Model.fill.
-        destruct (send_choked s), (choked s); sel;
-          try (destruct (queue s) as [|p q']; sel);
-          try (destruct (is_valid_piece L p && l_completed L (p_index p)); sel);
-          intro H; try reflexivity; rewrite Hc in H; discriminate H.
-      + destruct (obuf (fill s)); [intro H; congruence|]. apply IH. exact Hcf.
-    - destruct (N.min k (N.of_nat (length (obuf s))) =? 0); [intro H; congruence|].
-      destruct (obuf (write_buf s _)); [|unfold write_buf; sel; intro H; congruence].
-      destruct (last_piece (write_buf s _)); apply IH; unfold write_buf; sel; exact Hc.
-    - destruct (N.min k (p_len (cur s)) =? 0); [intro H; congruence|].
-      destruct (p_len (cur (write_payload content s _)) =? 0);
-        [apply IH; unfold write_payload; sel; exact Hc | unfold write_payload; sel; intro H; congruence].
-  Qed.
 
   Lemma step_inv : forall s o, Inv s -> Inv (step s o).
   Proof.
@@ -215,22 +389,54 @@ Section Proofs.
     induction ops as [|o ops IH]; intros s HI; [exact HI|]. cbn [run_from fold_left]. apply IH, step_inv, HI.
   Qed.
 
-  (* piece_bytes_exact: for every op list (hence every segmentation of the writes), the bytes the
-     peer has received, followed by what is still in the write buffer and the unsent rest of the
-     block being streamed, are exactly the encoding of the messages placed in the buffer:
-     each PIECE header (i,b,l) is followed by content i [b, b+l) and nothing else. *)
+  (* piece_bytes_exact, plain and RC4 at once. For every op list (hence every segmentation of the
+     writes, every partial write, every refill of the encrypt buffer): the plaintext wire(msgs) --
+     each PIECE header (i,b,l) followed by content i [b, b+l) and nothing else -- splits into P1,
+     which has passed through the cipher, and the payload still to be read from the chunk; what the
+     peer has received followed by the contents of the two buffers is crypt 0 P1: byte j of it is
+     byte j of P1 combined with keystream position j (each position used once, in order), and the
+     encryptor stands at |P1|. *)
   Theorem piece_bytes_exact : forall ops,
     let s := run ops in
-    stream s ++ obuf s ++ pend_payload s = wire (msgs s).
-  Proof. intros ops. exact (proj2 (run_from_inv ops init inv_init)). Qed.
+    exists P1, wire (msgs s) = P1 ++ pend_payload s /\
+               stream s ++ obuf s ++ ebuf s = crypt 0 P1 /\
+               kpos s = len P1.
+  Proof. intros ops. pose proof (run_from_inv ops init inv_init) as HI. inv_destruct HI. exists P1. auto. Qed.
 
-  Corollary piece_bytes_exact_idle : forall ops,
-    ws (run ops) = Idle -> stream (run ops) = wire (msgs (run ops)).
+  Theorem piece_bytes_exact_idle : forall ops,
+    ws (run ops) = Idle -> stream (run ops) = crypt 0 (wire (msgs (run ops))).
   Proof.
-    intros ops Hws. pose proof (run_from_inv ops init inv_init) as [Hi Hw]. change (run_from init ops) with (run ops) in *.
-    unfold Model.pend_payload in Hw. rewrite Hws in Hw. rewrite Hi in Hw by (rewrite Hws; discriminate).
-    cbn [app] in Hw. now rewrite app_nil_r in Hw.
+    intros ops Hws. pose proof (run_from_inv ops init inv_init) as HI. change (run_from init ops) with (run ops) in HI.
+    inv_destruct HI. unfold Model.pend_payload in Hw. rewrite Hws in Hw. rewrite app_nil_r in Hw.
+    rewrite Ho in Hs by (rewrite Hws; discriminate). rewrite He in Hs by (rewrite Hws; discriminate).
+    rewrite !app_nil_r in Hs. rewrite Hw. exact Hs.
   Qed.
+
+  (* plain stream: the cipher is the identity *)
+  Corollary piece_bytes_exact_plain : forall ops, enc = false ->
+    let s := run ops in stream s ++ obuf s ++ pend_payload s = wire (msgs s).
+  Proof.
+    intros ops Henc. cbn zeta. pose proof (run_from_inv ops init inv_init) as HI. change (run_from init ops) with (run ops) in HI.
+    inv_destruct HI. rewrite (Hp Henc), app_nil_r in Hs. unfold Model.crypt in Hs. rewrite (if_false_eq _ enc _ _ Henc) in Hs.
+    rewrite Hw, <- Hs, <- !app_assoc. reflexivity.
+  Qed.
+
+  (* RC4 stream: what the peer received is the plaintext XOR the keystream at consecutive positions *)
+  Corollary piece_bytes_exact_rc4 : forall ops, enc = true -> ws (run ops) = Idle ->
+    stream (run ops) = xor_from ks 0 (wire (msgs (run ops))).
+  Proof.
+    intros ops Henc Hws. rewrite (piece_bytes_exact_idle ops Hws). unfold Model.crypt. rewrite (if_true_eq _ enc _ _ Henc). reflexivity.
+  Qed.
+
+  Lemma xor_from_nth : forall l p j, (j < length l)%nat ->
+    nth j (xor_from ks p l) 0 = N.lxor (nth j l 0) (ks (p + N.of_nat j)).
+  Proof.
+    induction l as [|x l IH]; intros p j Hj; cbn [length] in Hj; [lia|].
+    destruct j as [|j]; cbn [xor_from nth].
+    - now rewrite N.add_0_r.
+    - rewrite IH by lia. f_equal. f_equal. lia.
+  Qed.
+
   (* ---------- message-level invariants ---------- *)
   Lemma piece_eqb_eq : forall a b, piece_eqb a b = true <-> a = b.
   Proof.
@@ -314,6 +520,16 @@ Section Proofs.
       try (rewrite Hq; cbn [length]; first [constructor | apply N.le_0_l]).
   Qed.
 
+  Lemma up_chunk_same : forall s k,
+    queue (fst (up_chunk s k)) = queue s /\ msgs (fst (up_chunk s k)) = msgs s /\
+    choked (fst (up_chunk s k)) = choked s /\ send_choked (fst (up_chunk s k)) = send_choked s /\
+    closed (fst (up_chunk s k)) = closed s /\ ws (fst (up_chunk s k)) = ws s.
+  Proof.
+    intros s k. unfold Model.up_chunk, Model.enc_refill, write_ebuf, write_payload.
+    destruct enc; [destruct (p_len (cur s) <=? len (ebuf s))|];
+      match goal with |- context [if ?c then _ else _] => destruct c end; cbn; auto 10.
+  Qed.
+
   Lemma ew_inv2 : forall f k s, Inv2 s -> Inv2 (ew f k s).
   Proof.
     induction f as [|f IH]; intros k s HI; cbn [Model.ew]; [exact HI|].
@@ -323,8 +539,9 @@ Section Proofs.
     - destruct (N.min k (N.of_nat (length (obuf s))) =? 0); [exact HI|].
       destruct (obuf (write_buf s _)); [|exact HI].
       destruct (last_piece (write_buf s _)); apply IH; exact HI.
-    - destruct (N.min k (p_len (cur s)) =? 0); [exact HI|].
-      destruct (p_len (cur (write_payload content s _)) =? 0); [apply IH|]; exact HI.
+    - pose proof (up_chunk_same s k) as (Q & M & _). destruct (up_chunk s k) as [s1 n]. cbn [fst] in *.
+      assert (H1 : Inv2 s1) by (unfold Inv2 in *; rewrite Q, M; exact HI).
+      destruct (n =? 0); [exact H1|]. destruct (p_len (cur s1) =? 0); apply IH; exact H1.
   Qed.
 
   Lemma step_inv2 : forall s o, Inv2 s -> Inv2 (step s o).
